@@ -6,7 +6,7 @@ set -e
 PATCH="$(readlink -f "$1")"; shift
 SHA=$(git -C /verif rev-parse HEAD)
 [ -d /tmp/mt/verif ] || git -C /verif worktree add --detach /tmp/mt/verif "$SHA" >/dev/null
-git -C /tmp/mt/verif checkout -q --detach "$SHA"
+git -C /tmp/mt/verif checkout -q -f --detach "$SHA"
 rm -rf /tmp/mt/repo; git -C /repo worktree prune; git -C /repo worktree add --detach /tmp/mt/repo HEAD >/dev/null 2>&1
 git -C /tmp/mt/repo apply "$PATCH"
 cd /tmp/mt/verif
